@@ -6,6 +6,8 @@ PROFILE = {'scenario_pref': ['sparse_write', 'handle_unset', 'shared_maps', 'tor
 
 
 def main(tier, seed):
+    import c11
     return dbtie.db_check("C03", tier, seed, PROFILE, 650, 6000, "Prop_C03",
-                          "user callables and re are an environment the theorems quantify over; the tie instantiates them with the twin table")
+                          "user callables and re are an environment the theorems quantify over; the tie instantiates them with the twin table",
+                          direct=lambda ck, tf: c11.direct_exceptions(ck, tf, "C03"))
 
